@@ -586,7 +586,9 @@ class Polygon(Shape2D):
         # 3D, which imposes the additional constraint that the incircle must
         # lie in the plane of the polygon.
 
-        outward_normals = np.cross(
+        # The cross product below faces outward for vertices running counterclockwise
+        # about the normal; the sign of the signed area accounts for the other case.
+        outward_normals = np.sign(self.signed_area) * np.cross(
             # Order is important here to get the outward facing normal.
             np.roll(self.vertices, axis=0, shift=-1) - self.vertices,
             self.normal,
